@@ -1504,7 +1504,10 @@ class PosVelArray(PositionArray):
         Applies the converter function that is provides and copies all registered attributes to the new position 
         """
         attrs = {a: getattr(pos, a, None) for a in cls._attributes()}
-        return _SYSTEMS["PosVelArray"][cls.system](converter(pos), ellipsoid=pos.ellipsoid, **attrs)
+        converted = _SYSTEMS["PosVelArray"][cls.system](converter(pos), ellipsoid=pos.ellipsoid, **attrs)
+        # pos hands this array out as its conversion from now on: when the caller changes it in place, pos has to convert anew
+        converted.add_dependency(pos)
+        return converted
 
     @property
     def pos(self):
